@@ -1,4 +1,5 @@
 import MosnVerif.Model.Json
+import MosnVerif.Model.GoDuration
 import MosnVerif.Gen.ConfigGraph
 /-!
 # Field-table-driven model of the JSON codec of pkg/config/v2 (C19)
@@ -12,12 +13,12 @@ import MosnVerif.Gen.ConfigGraph
   normalises (an empty non-nil slice / map / hole behind `omitempty` comes back nil).
 * three custom pairs written after the Go text: `FilterChain` (tls_context / tls_context_set ↔ TLSContexts),
   `Host` (metadata ↔ `filter_metadata."mosn.lb"`, strings only), `RetryPolicy` (retry_timeout ↔ time.Duration via
-  `time.ParseDuration` / `Duration.String`, both modelled digit by digit).
+  `time.ParseDuration` / `Duration.String`, both modelled digit by digit in `Model/GoDuration.lean`).
 Go map iteration order is not modelled: map members keep their document order here (comparisons with the
 implementation are made on key-sorted JSON).  Core Lean only.
 -/
 namespace MosnVerif.Model.ConfigCodec
-open MosnVerif.Model MosnVerif.Model.GoTypes
+open MosnVerif.Model MosnVerif.Model.GoTypes MosnVerif.Model.GoDuration
 
 /-! ## shapes and values -/
 
@@ -405,94 +406,14 @@ def hostM (x : HostV) : Json :=
 
 /-! ## custom pair 3: `RetryPolicy` and `api.DurationConfig` (route.go, mosn.io/api types.go, package time) -/
 
-def two63 : Nat := 9223372036854775808
-
-/-- nanoseconds per unit (`time.unitMap`) -/
-def unitNs (u : String) : Option Nat :=
-  if u == "ns" then some 1 else if u == "us" || u == "µs" || u == "μs" then some 1000
-  else if u == "ms" then some 1000000 else if u == "s" then some 1000000000
-  else if u == "m" then some 60000000000 else if u == "h" then some 3600000000000 else none
-
-def isDig (c : Char) : Bool := '0' ≤ c && c ≤ '9'
-
-def spanDigits : List Char → List Char → List Char × List Char
-  | c :: r, acc => if isDig c then spanDigits r (c :: acc) else (acc.reverse, c :: r)
-  | [], acc => (acc.reverse, [])
-
-def spanUnit : List Char → List Char → List Char × List Char
-  | c :: r, acc => if isDig c || c == '.' then (acc.reverse, c :: r) else spanUnit r (c :: acc)
-  | [], acc => (acc.reverse, [])
-
-def digitsVal (ds : List Char) : Nat := ds.foldl (fun n c => n * 10 + (c.toNat - 48)) 0
-
-/-- the `for s != ""` loop of `time.ParseDuration`; fuel = remaining input length. The fraction is computed exactly
-(Go uses float64, exact whenever the fraction is not finer than a nanosecond of its unit). -/
-def parseDurLoop : Nat → List Char → Nat → Option Nat
-  | 0, _, _ => none
-  | fuel + 1, cs, d =>
-    match cs with
-    | [] => some d
-    | c :: _ =>
-      if !(c == '.' || isDig c) then none else
-      let (ip, r1) := spanDigits cs []
-      let v := digitsVal ip
-      if v > two63 then none else
-      let (fp, r2, hadDot) := (match r1 with
-        | '.' :: r => let (fp, r') := spanDigits r []; (fp, r', true)
-        | r => ([], r, false))
-      if ip.isEmpty && fp.isEmpty then none else
-      let _ := hadDot
-      let (u, r3) := spanUnit r2 []
-      if u.isEmpty then none else
-      match unitNs (String.ofList u) with
-      | none => none
-      | some unit =>
-        if v > two63 / unit then none else
-        let v' := v * unit + (digitsVal fp * unit) / (10 ^ fp.length)
-        if v' > two63 then none else
-        let d' := d + v'
-        if d' > two63 then none else parseDurLoop fuel r3 d'
-
-/-- `time.ParseDuration` -/
-def parseDur (s : String) : Option Int :=
-  let cs := s.toList
-  let (neg, cs) := (match cs with | '-' :: r => (true, r) | '+' :: r => (false, r) | r => (false, r))
-  if cs == ['0'] then some 0
-  else if cs.isEmpty then none
-  else match parseDurLoop (cs.length + 1) cs 0 with
-    | none => none
-    | some d => if neg then some (-(d : Int)) else if d > two63 - 1 then none else some (d : Int)
-
-/-- `fmtFrac`: the fraction `v mod 10^prec` with trailing zeros (and an all-zero fraction) dropped -/
-def fracDigits (v prec : Nat) : String :=
-  let digs := (List.range prec).map (fun i => Char.ofNat (48 + (v / 10 ^ (prec - 1 - i)) % 10))
-  let trimmed := (digs.reverse.dropWhile (· == '0')).reverse
-  if trimmed.isEmpty then "" else "." ++ String.ofList trimmed
-
-/-- `Duration.String` -/
-def fmtDur (d : Int) : String :=
-  let u := d.natAbs
-  let body :=
-    if u == 0 then "0s"
-    else if u < 1000 then s!"{u}ns"
-    else if u < 1000000 then s!"{u / 1000}{fracDigits (u % 1000) 3}µs"
-    else if u < 1000000000 then s!"{u / 1000000}{fracDigits (u % 1000000) 6}ms"
-    else
-      let secs := u / 1000000000
-      let sPart := s!"{secs % 60}{fracDigits (u % 1000000000) 9}s"
-      let mins := secs / 60
-      if mins == 0 then sPart
-      else
-        let hrs := mins / 60
-        if hrs == 0 then s!"{mins % 60}m{sPart}" else s!"{hrs}h{mins % 60}m{sPart}"
-  if d < 0 then "-" ++ body else body
-
-/-- `DurationConfig.UnmarshalJSON`: `time.ParseDuration(strings.Trim(string(b), "\""))` on the raw member text -/
+/-- `DurationConfig.UnmarshalJSON`: `time.ParseDuration(strings.Trim(string(b), "\""))` on the raw member text — for a
+JSON string written without escapes that is its content (a content with quotes or escapes fails to parse either way), for
+a number its literal; `null`, booleans and containers fail -/
 def durU (j : Json) : Option Int :=
   match j with
-  | .str s => parseDur (String.ofList ((s.toList.dropWhile (· == '"')).reverse.dropWhile (· == '"')).reverse)
+  | .str s => parseDur s
   | .num l => parseDur l
-  | _ => none   -- null / true / objects: ParseDuration fails on their text
+  | _ => none
 
 /-- `RetryPolicy` in memory (`RetryTimeout` always equals the config's duration after `UnmarshalJSON`) -/
 structure RetryV where
